@@ -530,6 +530,13 @@ class CompositeFrontend(ConstrainedFrontend):
         merged.constraints = list(itertools.chain.from_iterable(a.constraints for a in merged._solver_list))
         return True, merged
 
+    def combine(self, others):
+        combined = super().combine(others)
+        # a concrete False is in no operand's constraint list: it lives in the flag
+        if self._unsat or any(getattr(o, "_unsat", False) for o in others):
+            combined._unsat = True
+        return combined
+
     def split(self):
         parts = [s.branch() for s in self._solver_list]
         if self._unsat:
